@@ -18,6 +18,7 @@ const (
 	SString Sort = "String"
 	SReal   Sort = "Real"
 	SSlice  Sort = "Slice"
+	SRef    Sort = "Ref" // references (pointers, interfaces, maps, channels, functions): an alias of Int
 )
 
 // Term is an SMT term together with its sort and (where known) its Go type.
@@ -290,20 +291,20 @@ func (u *Universe) sortOf(t types.Type) Sort {
 		case tt.Info()&types.IsFloat != 0:
 			return SReal
 		case tt.Kind() == types.UnsafePointer, tt.Kind() == types.UntypedNil:
-			return SInt
+			return SRef
 		}
 		return SInt
 	case *types.Pointer:
 		if _, ok := tt.Elem().Underlying().(*types.Array); ok {
 			return SSlice
 		}
-		return SInt
+		return SRef
 	case *types.Slice:
 		return SSlice
 	case *types.Array:
 		return SSlice // arrays by value are modelled as a fresh backing row (see Alloc)
 	case *types.Map, *types.Chan, *types.Signature, *types.Interface:
-		return SInt
+		return SRef
 	case *types.Struct:
 		si := u.structInfo(t)
 		u.ensureDT(si)
@@ -420,7 +421,8 @@ func (u *Universe) addAxiom(a string) {
 	u.axioms = append(u.axioms, a)
 }
 
-const basePrelude = `(declare-datatypes ((Slice 0)) (((mk_slice (s_base Int) (s_off Int) (s_len Int) (s_cap Int)))))
+const basePrelude = `(define-sort Ref () Int)
+(declare-datatypes ((Slice 0)) (((mk_slice (s_base Int) (s_off Int) (s_len Int) (s_cap Int)))))
 (declare-fun dyntype (Int) Int)
 (declare-fun sub (Int Int) Int)
 (declare-fun sub_parent (Int) Int)
